@@ -729,6 +729,13 @@ impl St {
                         Step::Dbg => {
                             let rem: Vec<u32> = before[lo..hi].iter().map(|m| m.0).collect();
                             debug_touches_only("the owning iterator", &rem, || it.debug_string())?;
+                            let full = untracked(|| it.debug_string()).len();
+                            for (budget, panic) in [(0, false), (full / 2, false), (full / 2, true)] {
+                                if untracked(|| it.debug_failing(budget, panic)) == Some(false) {
+                                    return Err(format!("formatting the owning iterator into a sink that accepts {budget} of {full} bytes reported success"));
+                                }
+                                len_chk("into_iter after an interrupted {:?}", it.len(), it.size_hint(), hi - lo)?;
+                            }
                         }
                         Step::Search | Step::PanicSearch(..) => {}
                         Step::FindMid | Step::RFindMid => {
